@@ -326,3 +326,27 @@ def decoration_env_stores(sw):
                             (isinstance(a.value, ast.Call) and isinstance(a.value.func, ast.Name) and a.value.func.id == 'eval')
                         out.append((a, ok, 'environment entry of a decorative variable is %s' % unparse(a.value)))
     return out
+
+
+def stepped_over_errors(sw):
+    """[(handler node, ok, witness)]: from every handler of a try around an evaluation in the sweep loop, walk the feasible
+    paths (truthiness constants propagated) up to the start of the next sweep; ok iff no commit is reached"""
+    from .dataflow import truth_search, trace
+    g = sw.cfg
+    handlers = []
+    for n in sw.loop_nodes:
+        if n.kind == 'except' and isinstance(n.stmt, ast.Try) and any(eval_calls(b) for b in n.stmt.body):
+            handlers.append(n)
+    commit_ids = {c.id for c in sw.commit_nodes}
+
+    def new_sweep(a, b, lab):
+        return a == sw.loop_test.id and lab is True
+    out = []
+    for h in handlers:
+        hits, seen = truth_search(g, [h], commit_ids, stop_edge=new_sweep)
+        wit = ''
+        if hits:
+            k = sorted(hits)[0]
+            wit = ' via lines ' + ','.join(str(x) for x in trace(seen, hits[k], g))
+        out.append((h, not hits, wit))
+    return out
